@@ -125,3 +125,8 @@ func VerifValidateBlocks(blocks []Block) []Block { return NewBlockDetector().val
 func VerifBuildElementTree(result *AnalysisResult) []LayoutElement {
 	return NewAnalyzer().buildElementTree(result)
 }
+
+// VerifShouldPreserveStreamOrder exposes shouldPreserveStreamOrder.
+func VerifShouldPreserveStreamOrder(fragments []text.TextFragment) bool {
+	return shouldPreserveStreamOrder(fragments)
+}
